@@ -52,7 +52,7 @@ func runC05(c *fw.Ctx, idx int) fw.Result {
 	vp.PDel = 0.05
 	vp.MaxInsSites = 6
 	vp.PSub = 0.03
-	opts := gen.AnnoOpts{MaxFeats: 3, AllowUnnamed: false, AllowSlip: false, SplitCodons: true}
+	opts := gen.AnnoOpts{MaxFeats: 3, AllowUnnamed: false, AllowSlip: false, SplitCodons: true, Rotate: true, NoStop: true}
 	ac := makeAnnoCase(r, c.Thorough(), format, form, vp, 8, opts)
 	if form == "sam" {
 		// regenerate the SAM with an indel-heavy profile
